@@ -249,6 +249,9 @@ pub fn oracle_store(case: &ZoneCase, st: &mut Stats) -> Verdict {
     if rejected > 0 {
         st.class("with-rejected-add");
     }
+    if model.nodes.values().any(|n| n.rrsets.values().any(|rs| rs.rdatas.iter().any(|r| r.len() >= 32768))) {
+        st.class("zone-holding-RDATA-of-32768-octets-or-more");
+    }
     if ents > 0 {
         st.class("with-empty-non-terminal");
     }
